@@ -119,7 +119,9 @@ _entry = st.one_of(
     st.fixed_dictionaries({"style": st.just("bare"), "len": _bare_len, "fill": st.sampled_from(list(HEX))}),
     st.fixed_dictionaries({"style": st.just("bare"), "len": st.sampled_from([32, 40, 64]), "fill": st.sampled_from(list(HEX))}),
 )
-_key = st.one_of(tim.option_name, tim.ini_path.filter(lambda p: "=" not in p and ":" not in p)).map(tim._norm_rel).filter(
+_key = st.one_of(tim.option_name, tim.ini_path.filter(lambda p: "=" not in p and ":" not in p),
+                 st.sampled_from(["x86_64/os/images/boot.iso", "Server/x86_64/os/repodata/repomd.xml", "images/boot.iso", "os/images/boot.iso", "a/os/b",
+                                  "repodata/repomd.xml", "LiveOS/squashfs.img"])).map(tim._norm_rel).filter(
     lambda p: p and p[0] not in "#;[/" and p.strip() == p)
 section_strategy = st.fixed_dictionaries({
     "entries": st.lists(st.tuples(_key, _entry), min_size=1, max_size=6, unique_by=lambda t: t[0]),
